@@ -407,3 +407,84 @@ def approx_center(d):
     if k == 'line':
         return d['a']
     return d['c']
+
+
+# ------------------------------------------------------------------ regions with a history
+
+HISTORY_KINDS = ['circle', 'ellipse', 'rectangle', 'polygon', 'circle_annulus', 'ellipse_annulus',
+                 'rectangle_annulus', 'point', 'line']
+
+
+def reassign(reg, d):
+    """give the existing region object `reg` the parameters of desc `d` (same kind) by attribute
+    assignment, as a user would."""
+    import astropy.units as u
+    from regions import PixCoord
+    k = d['kind']
+    P = lambda p: PixCoord(p[0], p[1])
+    A = lambda a: a[0] * u.Unit(a[1])
+    if k == 'circle':
+        reg.center = P(d['c']); reg.radius = d['r']
+    elif k in ('ellipse', 'rectangle'):
+        reg.center = P(d['c']); reg.width = d['w']; reg.height = d['h']; reg.angle = A(d['angle'])
+    elif k == 'polygon':
+        reg.vertices = PixCoord([p[0] for p in d['v']], [p[1] for p in d['v']])
+    elif k == 'circle_annulus':
+        reg.center = P(d['c'])
+        # keep inner < outer at every step
+        reg.outer_radius = max(d['r2'], reg.inner_radius * 2 + 1)
+        reg.inner_radius = d['r1']; reg.outer_radius = d['r2']
+    elif k in ('ellipse_annulus', 'rectangle_annulus'):
+        reg.center = P(d['c'])
+        reg.outer_width = max(d['w2'], reg.inner_width * 2 + 1); reg.outer_height = max(d['h2'], reg.inner_height * 2 + 1)
+        reg.inner_width = d['w1']; reg.inner_height = d['h1']
+        reg.outer_width = d['w2']; reg.outer_height = d['h2']
+        reg.angle = A(d['angle'])
+    elif k == 'point':
+        reg.center = P(d['c'])
+    elif k == 'line':
+        reg.start = P(d['a']); reg.end = P(d['b'])
+    else:
+        raise ValueError(k)
+    reg.meta.pop('include', None)
+    if d.get('include', 'absent') != 'absent':
+        reg.meta['include'] = INCLUDE_VALUE[d['include']]
+    return reg
+
+
+def warm(reg):
+    """use the region before it is re-parametrised (anything cached must not survive)."""
+    from regions import PixCoord
+    try:
+        bb = reg.bounding_box
+        reg.contains(PixCoord(0.5, 0.25))
+        if (bb.ixmax - bb.ixmin) * (bb.iymax - bb.iymin) <= 10000:
+            try:
+                reg.to_mask(mode='center')
+            except NotImplementedError:
+                pass
+        reg.area
+    except NotImplementedError:
+        pass
+
+
+def build_case(case):
+    """build the region of a case; if the case carries a 'prev' description the object is first
+    built and USED with those parameters and then re-assigned (history)."""
+    d = case['region']
+    prev = case.get('prev')
+    if prev is None or d['kind'] not in HISTORY_KINDS or 'origin' in d:
+        return build(d)
+    reg = build(prev)
+    warm(reg)
+    return reassign(reg, d)
+
+
+def add_history(rng, case, prob=0.2):
+    """with some probability give the case a previous parametrisation of the same kind."""
+    d = case['region']
+    if d['kind'] in HISTORY_KINDS and 'origin' not in d and rng.random() < prob:
+        p = gen_simple(rng, kind=d['kind'], scale=1.0, center_scale=3)
+        p.pop('origin', None)
+        case['prev'] = p
+    return case
